@@ -19,7 +19,7 @@ CS = 'jesse.store.state_candles.CandlesState'
 FUNCTIONS = ['jesse.services.candle.generate_candle_from_one_minutes', 'jesse.services.candle._get_generated_candles',
              'jesse.services.candle.inject_warmup_candles_to_store', f'{CS}.get_candles', f'{CS}.get_current_candle',
              f'{CS}.forming_estimation', f'{BM}._step_simulator', f'{BM}._simulate_new_candles',
-             f'{BM}._update_all_routes_a_partial_candle', f'{BM}._get_fixed_jumped_candle',
+             f'{BM}._update_all_routes_a_partial_candle', f'{BM}._get_fixed_jumped_candle', f'{BM}._calculate_minimum_candle_step',
              f'{BM}._simulate_price_change_effect_multiple_candles', 'jesse.utils.timeframe_to_one_minutes']
 ASSUMPTIONS = [
     'A-1; A-6 backtest mode; sessions and warm-up lengths are aligned to every route timeframe (granted by the statement)',
@@ -142,6 +142,37 @@ def t_fast(tf, step):
                 h.prove(adds[0][1][0] is gens[0][1][3], 'fast.generated-candle-is-what-gets-stored')
         else:
             h.prove(len(gens) == 0 and len(adds) == 0, 'fast.nothing-generated-inside-a-window')
+    return t
+
+
+def t_min_step(size):
+    """_calculate_minimum_candle_step: the chunk length of the fast simulator divides the minute count of every route
+    timeframe (otherwise `(i + step) % count == 0` skips window ends and whole candles are never published).
+    Finite enumeration: every set of `size` distinct timeframes."""
+    import itertools
+
+    def t(h):
+        names = list(K.MINUTES)
+        bad_div, bad_pos, n = [], [], 0
+        for combo in itertools.combinations(names, size):
+            router = Obj(None, {'all_formatted_routes': [{'exchange': 'Sandbox', 'symbol': 'BTC-USDT', 'timeframe': tf} for tf in combo]})
+            h.ctx.cfg.globals[f'{BM}.router'] = lambda i, router=router: router
+            h.ctx.globals.pop(f'{BM}.router', None)
+            out = h.outcome(f'{BM}._calculate_minimum_candle_step')
+            n += 1
+            if not out.ok:
+                bad_pos.append((combo, 'raised ' + str(out.exc)))
+                continue
+            step = out.value
+            if not (isinstance(step, int) and step >= 1):
+                bad_pos.append((combo, repr(step)))
+                continue
+            if any(K.MINUTES[tf] % step != 0 for tf in combo):
+                bad_div.append((combo, step))
+        h.cover('min-step.pre')
+        h.prove(not bad_pos, f'min-step.size{size}.is-a-positive-integer', {'cases': n, 'failing': [list(map(str, b)) for b in bad_pos[:5]]})
+        h.prove(not bad_div, f'min-step.size{size}.divides-the-minute-count-of-every-route-timeframe',
+                {'cases': n, 'failing': [[list(c), s_] for c, s_ in bad_div[:5]]})
     return t
 
 
@@ -367,6 +398,9 @@ def tasks(tier):
         ts.append(Task(f'partial.{tf}', t_partial(tf), extra=dict(x), overrides=dict(ov)))
     for tf, step in (('5m', 1), ('5m', 5), ('15m', 5), ('15m', 3), ('15m', 15), ('1h', 15), ('45m', 15), ('1h', 5), ('4h', 1)):
         ts.append(Task(f'fast.{tf}.step{step}', t_fast(tf, step), extra=dict(x), overrides=dict(ov)))
+    for size in ((1, 2) if tier == 'quick' else (1, 2, 3)):
+        ts.append(Task(f'min-step.size{size}', t_min_step(size), overrides=dict(ov),
+                       extra=dict(x, bounded=f'every set of {size} distinct timeframes (finite enumeration, concrete evaluation)')))
     ts.append(Task('fixed-jump', t_fixed_jump, extra=dict(x), overrides=dict(ov)))
     ts.append(Task('chunk-candle', t_chunk_candle, extra=dict(x), overrides=dict(ov)))
     return ts
